@@ -125,6 +125,24 @@ AddNode(S, n) == AddNode0(Dropped(S, "add_node"), n)
 AddNodes(S, ns) == FoldNodes(Dropped(S, "add_nodes"), ns)
 AddLink(S, u, l, v) == AddLink0(Dropped(S, "add_link"), u, l, v)
 AddLinks(S, ts) == FoldLinks(Dropped(S, "add_links"), ts)
+(* MALFORMED single and bulk calls.  The library hands its arguments to networkx one by one, so a call that raises
+   part-way has already changed the graph: add_nodes([n, None]) has added n, add_links([(u, l, v), (v, m)]) has added
+   the first edge, add_link(u, l, None) has added u.  "None" stands for Python's None (networkx refuses it as a node),
+   a tuple of length # 3 for a malformed link description (or an iterator that raises at that position).  The
+   memoised lookups were dropped BEFORE the call started, so whatever reached the graph is seen by the next read. *)
+NoneId == "None"
+MalformedCall(c) ==
+  \/ (c[1] = "add_nodes" /\ NoneId \in Range(c[2]))
+  \/ (c[1] = "add_links" /\ \E i \in DOMAIN c[2] : Len(c[2][i]) # 3)
+  \/ (c[1] = "add_link" /\ NoneId \in {c[2], c[4]})
+  \/ (c[1] = "add_node" /\ c[2] = NoneId)
+RECURSIVE BeforeNone(_)
+BeforeNone(s) == IF s = <<>> \/ Head(s) = NoneId THEN <<>> ELSE <<Head(s)>> \o BeforeNone(Tail(s))
+RECURSIVE BeforeRagged(_)
+BeforeRagged(s) == IF s = <<>> \/ Len(Head(s)) # 3 THEN <<>> ELSE <<Head(s)>> \o BeforeRagged(Tail(s))
+AddNodesPartial(S, ns) == AddNodes(S, BeforeNone(ns))
+AddLinksPartial(S, ts) == AddLinks(S, BeforeRagged(ts))
+AddLinkPartial(S, u, l, v) == LET D == Dropped(S, "add_link") IN IF u = NoneId THEN D ELSE [D EXCEPT !.nodes = Ensure(D.nodes, u)]
 AddOrigin(S, o, n) == LET D == Dropped(S, "add_origin") IN [D EXCEPT !.nodes = Ensure(D.nodes, n), !.orig = Put(D.orig, n, o)]
 AddDestination(S, d, n) ==
   LET D == Dropped(S, "add_destination")
@@ -180,7 +198,13 @@ IsValidFill(S) == Fill(Fill(S, "origins"), "destinations")
 (* one public call = one pure function.  call = <<op, args...>>; result: [S, res] *)
 Apply(S, c) ==
   LET op == c[1]
-  IN CASE op = "add_node" -> [S |-> AddNode(S, c[2]), res |-> <<"ok">>]
+  IN CASE MalformedCall(c) ->
+            [S |-> CASE op = "add_nodes" -> AddNodesPartial(S, c[2])
+                     [] op = "add_links" -> AddLinksPartial(S, c[2])
+                     [] op = "add_link" -> AddLinkPartial(S, c[2], c[3], c[4])
+                     [] OTHER -> Dropped(S, "add_node"),
+             res |-> <<"error", "ValueError">>]
+       [] op = "add_node" -> [S |-> AddNode(S, c[2]), res |-> <<"ok">>]
        [] op = "add_nodes" -> [S |-> AddNodes(S, c[2]), res |-> <<"ok">>]
        [] op = "add_link" -> [S |-> AddLink(S, c[2], c[3], c[4]), res |-> <<"ok">>]
        [] op = "add_links" -> [S |-> AddLinks(S, c[2]), res |-> <<"ok">>]
@@ -210,7 +234,7 @@ WellTyped(S) == /\ \A e \in Range(S.edges) : S.link[e] \in LinkIds
 \* C09: a malformed path is rejected
 WellFormedPath(p) == /\ Len(p) >= 3 /\ Len(p) % 2 = 1
                      /\ \A i \in DOMAIN p : IF i % 2 = 1 THEN IsNode(p[i]) ELSE IsLink(p[i])
-MalformedRejected(c, res) == (c[1] = "add_path" /\ ~WellFormedPath(c[2])) => res[1] = "error"
+MalformedRejected(c, res) == ((c[1] = "add_path" /\ ~WellFormedPath(c[2])) \/ MalformedCall(c)) => res[1] = "error"
 WellFormedAccepted(c, res) == (c[1] = "add_path" /\ WellFormedPath(c[2])) => res[1] = "ok"
 
 \* C09: the graph DESCRIBED by a history of successful calls, declaratively: the set of nodes
